@@ -365,3 +365,82 @@ Proof.
   - (* task type *) destruct j as [|n| | | |]; try discriminate H. cbn [must_reject] in H. cbn [of_json].
     rewrite tasktype_rejects_num; [reflexivity|lia].
 Qed.
+
+(* ---------- composites: card, time profile, task ---------- *)
+From UV Require Import Model.TextComposites.
+
+Lemma date_text_parse y m d : date_dom y m d = true -> (y, m, d) <> (1, 1, 1)%Z ->
+  exists s, date_to (cv_date y m d) = Some s /\ parse_date_text s = Some (cv_date y m d).
+Proof.
+  intros H NZ. destruct (text_date_roundtrip y m d H NZ) as (s & T & O). exists s. split; [exact T|].
+  unfold text_of in O. cbn [N.eqb] in O. destruct (parse_date_text s); [now injection O as ->|discriminate O].
+Qed.
+
+Definition u8 (z : Z) : bool := ((0 <=? z) && (z <? 256))%Z.
+
+Theorem card_roundtrip n y1 m1 d1 y2 m2 d2 a b c d pin :
+  (0 <= n < 4294967296)%Z -> date_dom y1 m1 d1 = true -> (y1, m1, d1) <> (1, 1, 1)%Z -> date_dom y2 m2 d2 = true -> (y2, m2, d2) <> (1, 1, 1)%Z ->
+  u8 a = true -> u8 b = true -> u8 c = true -> u8 d = true -> (0 <= pin <= 999999)%Z ->
+  let v := VL [VZ n; cv_date y1 m1 d1; cv_date y2 m2 d2; VL [VZ a; VZ b; VZ c; VZ d]; VZ pin] in
+  exists j, card_to v = Some j /\ card_of j = POk v.
+Proof.
+  intros Hn D1 N1 D2 N2 Ha Hb Hc Hd Hp v. subst v.
+  destruct (date_text_parse y1 m1 d1 D1 N1) as (s1 & T1 & P1). destruct (date_text_parse y2 m2 d2 D2 N2) as (s2 & T2 & P2).
+  destruct (pin_roundtrip pin Hp) as (sp & TP & OP).
+  unfold card_to. rewrite T1, T2. assert ((999999 <? pin)%Z = false) as -> by lia.
+  unfold u8 in *.
+  apply andb_prop in Ha as [Ha1 Ha2]. apply andb_prop in Hb as [Hb1 Hb2]. apply andb_prop in Hc as [Hc1 Hc2]. apply andb_prop in Hd as [Hd1 Hd2].
+  assert ((0 <=? n)%Z = true /\ (n <? 4294967296)%Z = true) as [Hn1 Hn2] by lia.
+  destruct (pin =? 0)%Z eqn:Z0.
+  - assert (pin = 0%Z) by lia. subst pin. eexists. split; [reflexivity|].
+    lazy -[parse_date_text pin_of Z.leb Z.ltb]. rewrite P1, P2, Ha1, Ha2, Hb1, Hb2, Hc1, Hc2, Hd1, Hd2, Hn1, Hn2. reflexivity.
+  - rewrite TP. eexists. split; [reflexivity|].
+    lazy -[parse_date_text pin_of Z.leb Z.ltb]. rewrite P1, P2, OP, Ha1, Ha2, Hb1, Hb2, Hc1, Hc2, Hd1, Hd2, Hn1, Hn2. reflexivity.
+Qed.
+
+Theorem segments_roundtrip_3p prior a1 a2 a3 a4 b1 b2 b3 b4 c1 c2 c3 c4 : seg_dom a1 a2 a3 a4 = true -> seg_dom b1 b2 b3 b4 = true -> seg_dom c1 c2 c3 c4 = true ->
+  let v := VL [present (seg a1 a2 a3 a4); present (seg b1 b2 b3 b4); present (seg c1 c2 c3 c4)] in
+  exists j, segments_to v = Some j /\ segments_of prior j = Some v.
+Proof. intros Da Db Dc v. subst v. seg_open Da ja Ta Oa. seg_open Db jb Tb Ob. seg_open Dc jc Tc Oc. seg_close. Qed.
+
+Definition date_dom0 (y m d : Z) : bool := date_dom y m d.     (* 0001-01-01, the zero date, included *)
+
+Theorem profile_roundtrip id linked y1 m1 d1 y2 m2 d2 f1 f2 f3 f4 f5 f6 f7 a1 a2 a3 a4 b1 b2 b3 b4 c1 c2 c3 c4 :
+  u8 id = true -> u8 linked = true -> date_dom y1 m1 d1 = true -> date_dom y2 m2 d2 = true ->
+  seg_dom a1 a2 a3 a4 = true -> seg_dom b1 b2 b3 b4 = true -> seg_dom c1 c2 c3 c4 = true ->
+  let v := VL [VZ id; VZ linked; cv_date y1 m1 d1; cv_date y2 m2 d2; VL (map flag [f1; f2; f3; f4; f5; f6; f7]);
+               VL [present (seg a1 a2 a3 a4); present (seg b1 b2 b3 b4); present (seg c1 c2 c3 c4)]] in
+  exists j, profile_to v = Some j /\ profile_of j = POk v.
+Proof.
+  intros Hid Hl D1 D2 Sa Sb Sc v. subst v.
+  destruct (date_roundtrip y1 m1 d1 D1) as (s1 & T1 & O1). destruct (date_roundtrip y2 m2 d2 D2) as (s2 & T2 & O2).
+  destruct (weekdays_roundtrip f1 f2 f3 f4 f5 f6 f7) as (w & TW & OW).
+  destruct (segments_roundtrip_3p [zero_seg; zero_seg; zero_seg] _ _ _ _ _ _ _ _ _ _ _ _ Sa Sb Sc) as (js & TS & OS).
+  cbv zeta in TW, OW, TS, OS.
+  unfold profile_to. rewrite T1, T2, TW, TS. unfold u8 in *.
+  apply andb_prop in Hid as [Hi1 Hi2]. apply andb_prop in Hl as [Hl1 Hl2].
+  destruct (linked =? 0)%Z eqn:Z0.
+  - assert (linked = 0%Z) by lia. subst linked. eexists. split; [reflexivity|].
+    lazy -[date_of weekdays_of segments_of Z.leb Z.ltb flag map present seg zero_seg]. rewrite O1, O2, OW, OS, Hi1, Hi2. reflexivity.
+  - eexists. split; [reflexivity|].
+    lazy -[date_of weekdays_of segments_of Z.leb Z.ltb flag map present seg zero_seg]. rewrite O1, O2, OW, OS, Hi1, Hi2, Hl1, Hl2. reflexivity.
+Qed.
+
+Theorem task_roundtrip ty door y1 m1 d1 y2 m2 d2 f1 f2 f3 f4 f5 f6 f7 h mi cards :
+  (0 <= ty <= 12)%Z -> u8 door = true -> u8 cards = true -> date_dom y1 m1 d1 = true -> date_dom y2 m2 d2 = true -> hhmm_dom h mi = true ->
+  let v := VL [VZ ty; VZ door; cv_date y1 m1 d1; cv_date y2 m2 d2; VL (map flag [f1; f2; f3; f4; f5; f6; f7]); cv_hhmm h mi; VZ cards] in
+  exists j, task_to v = Some j /\ task_of j = POk v.
+Proof.
+  intros Hty Hd Hc D1 D2 HH v. subst v.
+  destruct (date_roundtrip y1 m1 d1 D1) as (s1 & T1 & O1). destruct (date_roundtrip y2 m2 d2 D2) as (s2 & T2 & O2).
+  destruct (weekdays_roundtrip f1 f2 f3 f4 f5 f6 f7) as (w & TW & OW). cbv zeta in TW, OW.
+  destruct (hhmm_roundtrip h mi HH) as (sh & TH & OH).
+  destruct (tasktype_roundtrip ty Hty) as (sn & TN & ON & _).
+  unfold task_to. rewrite TN, T1, T2, TW, TH. unfold u8 in *.
+  apply andb_prop in Hd as [Hd1 Hd2]. apply andb_prop in Hc as [Hc1 Hc2].
+  destruct (door =? 0)%Z eqn:Zd; destruct (cards =? 0)%Z eqn:Zc;
+    try (assert (door = 0%Z) by lia; subst door); try (assert (cards = 0%Z) by lia; subst cards);
+    (eexists; split; [reflexivity|]);
+    lazy -[date_of weekdays_of hhmm_of tasktype_of_name Z.leb Z.ltb flag map];
+    rewrite O1, O2, OW, OH, ON, ?Hd1, ?Hd2, ?Hc1, ?Hc2; reflexivity.
+Qed.
